@@ -32,6 +32,10 @@ fn main() {
     }
     install_panic_hook();
     let t0 = Instant::now();
+    if args[1] == "genseeds" {
+        genseeds();
+        return;
+    }
     let id = args[1].as_str();
     let tier = args.get(2).cloned().or_else(|| std::env::var("VERIF_TIER").ok()).unwrap_or_else(|| "quick".into());
     let thorough = tier == "thorough";
@@ -198,4 +202,51 @@ fn run_c15(thorough: bool, ev: &mut Evidence, t0: Instant) {
     }
     ev.nontrivial_rule = "strings: every string of the stated grammar / length is one case, non-trivial = oversized diagrams + accepted strings; states: every visited state printed and parsed back (counter parse_links)".into();
     ev.nontrivial_keys = vec!["c15_oversized_diagrams", "parse_links"];
+}
+
+/// One-off generator of seeds/generated.txt: deterministic play-outs from two openings (the k-th offered action chosen
+/// by a fixed linear congruential sequence - no randomness at run time; the committed text file is the family).
+fn genseeds() {
+    use arimaa_engine_step::*;
+    let openings = ["rrrrrrrrhdcemcdh", "hdcmecdhrrrrrrrr"];
+    let mut out = String::new();
+    let mut count = 0;
+    for (oi, o) in openings.iter().enumerate() {
+        for game in 0..6u64 {
+            let mut gs = GameState::initial();
+            let gold: String = o.chars().collect();
+            let silver: String = openings[(oi + game as usize) % 2].chars().collect();
+            for c in gold.chars().chain(silver.chars()) {
+                gs = gs.take_action(&c.to_string().parse().unwrap());
+            }
+            let mut x: u64 = 0x9E3779B97F4A7C15u64.wrapping_mul(game + 1 + 7 * oi as u64);
+            let mut turns = 0;
+            while turns < 90 {
+                if gs.is_terminal().is_some() {
+                    break;
+                }
+                let va = gs.valid_actions();
+                if va.is_empty() {
+                    break;
+                }
+                x = x.wrapping_mul(6364136223846793005).wrapping_add(1442695040888963407);
+                // prefer steps over early passes so that positions develop
+                let mut k = ((x >> 33) as usize) % va.len();
+                if va[k] == Action::Pass && (x >> 20) % 3 != 0 {
+                    k = 0;
+                }
+                let before = gs.is_p1_turn_to_move();
+                gs = gs.take_action(&va[k]);
+                if gs.is_p1_turn_to_move() != before {
+                    turns += 1;
+                    if [12, 30, 55, 85].contains(&turns) && gs.is_terminal().is_none() {
+                        out.push_str(&format!("# generated: opening {} game {} after {} turns\n{}", oi, game, turns, gs));
+                        count += 1;
+                    }
+                }
+            }
+        }
+    }
+    std::fs::write(verif_dir().join("seeds").join("generated.txt"), out).unwrap();
+    println!("wrote {} seeds", count);
 }
